@@ -117,8 +117,11 @@ def resolve_body(raw, n, idx, c):
 
 def build_macros(specs, c):
     macs = []
+    # in every second document the name of each later macro is a proper prefix of all earlier names
+    # (bodies call earlier definitions only; seeded change C09-H)
+    chain = sum(sp[1] for sp in specs) % 2 == 0
     for idx, (kind, n, dflt, raw) in enumerate(specs):
-        name = '\\zzm' + 'abcdefghi'[idx]
+        name = '\\zzm' + ('abcde'[:5 - idx] if chain else 'abcdefghi'[idx])
         if kind == 'def':
             dflt = False
         if n == 0:
@@ -233,7 +236,15 @@ def render_nodes(c, fl, macs, depth=0, in_arg=False):
             first = True
             for kk in range(m.n):
                 if kk == 0 and m.default is not None:
-                    if given_opt:
+                    if given_opt and e[4] and all(x == ('w',) for x in e[4]) and (len(c.src) + kk) % 2 == 0:
+                        # plain words and an opening bracket, not protected by braces: the argument
+                        # ends at the first closing bracket (seeded change C09-G)
+                        c.src += '['
+                        opt = [('w', '[', len(c.src))]
+                        c.src += '[ '
+                        opt += render_nodes(c, e[4], macs, depth + 1, True)
+                        c.src += ']'
+                    elif given_opt:
                         c.src += '[{'
                         opt = render_nodes(c, e[4], macs, depth + 1, True)
                         c.src += '}]'
